@@ -589,6 +589,62 @@ template<class P> static void run_code_workload(const CaseSpec& cs, int pre) {
   }
 }
 
+// ---- W "dual-reinit": a Builder and an Assembler attached to one CodeHolder; reinit() fails; the objects are used again ----
+// "Every object involved can still be ... reused": after a reinit() that reported an error the still attached Assembler is used
+// directly (memory is available again) - it must produce the failure-free program, whatever happened to the Builder.
+struct DualProg : ProgBase<x86::Assembler> {
+  x86::Builder b;
+  void build(Att& A, std::string& out, bool alt) {
+    eh.att = &A;
+    if (!code.is_initialized()) S("CodeHolder::init", code.init(Environment(arch)));
+    code.set_error_handler(&eh);
+    if (!b.is_initialized()) S("CodeHolder::attach", code.attach(&b));     // the Builder is attached first
+    if (!e.is_initialized()) S("CodeHolder::attach", code.attach(&e));
+    x86::Assembler& a = e;
+    Label L = a.new_label(); NEED("new_label", L.is_valid());
+    S("emit", a.mov(x86::eax, alt ? 3 : 7));
+    S("bind", a.bind(L));
+    for (int i = 0; i < (alt ? 9 : 4); i++) S("emit", a.add(x86::eax, i + 1));
+    S("emit", a.dec(x86::ecx));
+    S("emit", a.jnz(L));
+    S("emit", a.ret());
+    S("comment", b.comment("the builder holds a node of its own"));
+    finish_image(A, code, out);
+  }
+};
+static void run_dual_reinit_workload(const CaseSpec& cs) {
+  std::string out1, out2, out3;
+  {
+    DualProg p;
+    { Att A0(true); std::string tmp; p.build(A0, tmp, true); if (A0.reported) viol("clean-fails", "the preparatory program reports an error without any injected fault: " + A0.first); p.eh.att = nullptr; }
+    Att A1(false);
+    p.eh.att = &A1;
+    arm_faults(cs);
+    A1.on("CodeHolder::reinit", p.code.reinit());
+    disarm();
+    bool reinit_reported = A1.reported;
+    Att A1b(true);
+    p.build(A1b, out1, false);               // memory is available again; no second reinit()
+    A1b.settle();
+    if (A1b.reported) viol("reuse-fails:" + A1b.first.substr(0, A1b.first.find('=')), "after a reinit() that " + std::string(reinit_reported ? "reported an error" : "succeeded") + ", using the attached emitters with memory available fails: " + A1b.first);
+    else if (!g_is_clean && out1 != *g_clean_ref)
+      viol("reuse-differs", "after a reinit() that " + std::string(reinit_reported ? "reported an error (" + A1.first + ")" : "returned kOk although a request failed") + ", the attached Assembler produces a different program than a failure-free run (" + std::to_string(out1.size()) + " vs " + std::to_string(g_clean_ref->size()) + " bytes of dump)");
+    if (g_is_clean) { A1.reported = A1b.reported; judge_attempt(A1, out1); } else judge_attempt(A1, out1, true);
+    p.eh.att = nullptr;
+    p.recover(cs.rec);
+    Att A2(true);
+    p.build(A2, out2, false);
+    judge_repeat(A2, out2, "retry");
+    p.eh.att = nullptr;
+  }
+  {
+    DualProg p; Att A3(true);
+    p.build(A3, out3, false);
+    judge_repeat(A3, out3, "fresh");
+    p.eh.att = nullptr;
+  }
+}
+
 // =====================================================================================================
 // W "jit-*": JitRuntime add / call / release
 // =====================================================================================================
@@ -927,6 +983,7 @@ static const Workload kWorkloads[] = {
   {"asm", [](const CaseSpec& cs) { run_code_workload<AsmProg>(cs, 0); }, "x86-64 Assembler: named/forward/backward labels, 2 sections, cross-section refs, address table, embed_label(+delta), 41 KiB text; flatten+resolve+relocate+copy"},
   {"asm-reinit", [](const CaseSpec& cs) { run_code_workload<AsmProg>(cs, R_REINIT); }, "same on a CodeHolder that assembled another program before; the injected attempt starts with reinit()"},
   {"asm-softreset", [](const CaseSpec& cs) { run_code_workload<AsmProg>(cs, R_SOFT); }, "same, the injected attempt starts with reset(kSoft)+init+attach"},
+  {"dual-reinit", [](const CaseSpec& cs) { run_dual_reinit_workload(cs); }, "Builder + Assembler attached to one CodeHolder that assembled a program before: reinit() under faults, then the Assembler is used directly with memory available"},
   {"builder", [](const CaseSpec& cs) { run_code_workload<BuilderProg>(cs, 0); }, "x86::Builder: nodes, labels, align, comment, sections, embed; finalize (serialize) + image"},
   {"comp", [](const CaseSpec& cs) { run_code_workload<CompProg>(cs, 0); }, "x86::Compiler: 27 virtual registers with spills, invoke, annotated jump table, local+global const pool; finalize + image"},
   {"comp-reinit", [](const CaseSpec& cs) { run_code_workload<CompProg>(cs, R_REINIT); }, "same on a CodeHolder/Compiler that compiled another function before; the injected attempt starts with reinit()"},
